@@ -33,7 +33,30 @@ def streams(ctx, scale=1):
             n = 1 << 256
             for k in [0, 1, 2, (1 << 128) - 1, 1 << 128, (1 << 255), (1 << 256) - 1] + [rng.bits(256) for _ in range(12 if ctx.tier == "quick" else 300)]:
                 lines.append("ep_glv %x" % k)
-    return [{"name": "params-base", "cfg": "base", "exe": exe, "lines": lines}]
+    out = [{"name": "params-base", "cfg": "base", "exe": exe, "lines": lines}]
+    # the other configurations whose tables the translator extracts (Gen/Params.lean extraFields / extraCurves): every identifier is offered
+    # to a library built in that configuration; accepted ones are judged against the extracted entries
+    for cfg, mk in (("p255", c03._exe), ("p381", c11._exe)):
+        xl = ["cfg"]
+        for cid in range(0, 120):
+            if cfg == "p381":
+                xl.append("ep2_param %d" % cid)
+            xl.append("ep_param %d" % cid)
+            if cid in _cfg_ids().get(cfg, []):
+                for k in [0, 1, 2, (1 << 128) - 1, 1 << 128, (1 << 255), (1 << 256) - 1] + [rng.bits(256) for _ in range(6 if ctx.tier == "quick" else 100)]:
+                    xl.append("ep_glv %x" % k)
+        out.append({"name": "params-" + cfg, "cfg": cfg, "exe": mk(ctx, cfg), "lines": xl})
+    return out
+
+
+def _cfg_ids():
+    """identifiers selectable per configuration, as extracted by the translator for this run (Gen/params_ids.json)"""
+    import os, json
+    f = os.path.join(os.path.dirname(os.path.dirname(os.path.dirname(os.path.abspath(__file__)))), "lean", "RelicVerif", "Gen", "params_ids.json")
+    try:
+        return json.load(open(f))
+    except (OSError, ValueError):
+        return {}
 
 
 def _table_ids():
@@ -44,25 +67,31 @@ def _table_ids():
         txt = open(f).read()
     except OSError:
         return set()
-    txt = txt[txt.find("def curves"):]
+    txt = txt[txt.find("def curves"):]      # base and extra curve tables
     return {int(m.group(1)) for m in re.finditer(r'name := "\w+", id := (\d+), field :=', txt)}
 
 
 def postprocess(ctx, recs):
     """every entry of the extracted table must be accepted by the running library (the converse — every accepted identifier is in the
     table and agrees with it — is the driver's judgement of the ep_param line)"""
-    ids = _table_ids()
+    by_cfg = _cfg_ids()
+    if not by_cfg:
+        by_cfg = {"base": sorted(_table_ids())}
     seen = set()
     for r in recs:
         t = r["line"].split()
         if len(t) == 2 and t[0] == "ep_param" and t[1].isdigit():
             cid = int(t[1])
-            if cid in ids:
-                seen.add(cid)
+            if cid in by_cfg.get(r.get("cfg", "base"), []):
+                seen.add((r.get("cfg", "base"), cid))
                 if r["got"].startswith("err") and not r["verdict"].startswith("FAIL"):
                     r["verdict"] = "FAIL S model=[] spec=[ep_param %d selects the table entry extracted from the source] got=[err]" % cid
-    if recs and ids - seen:
-        recs[0]["verdict"] = "FAIL S model=[] spec=[every table entry is offered to the library] got=[never offered: %s]" % sorted(ids - seen)
+    want = {(cfg, cid) for cfg, l in by_cfg.items() for cid in l}
+    # every identifier of the Lean table must belong to one of the configurations (nothing in the table is left unoffered)
+    tab = _table_ids()
+    orphan = tab - {cid for _, cid in want}
+    if recs and (want - seen or orphan):
+        recs[0]["verdict"] = "FAIL S model=[] spec=[every table entry is offered to the library] got=[never offered: %s %s]" % (sorted(want - seen), sorted(orphan))
 
 
 def search_streams(ctx, mfail):
@@ -70,7 +99,11 @@ def search_streams(ctx, mfail):
 
 
 def replay_streams(ctx, rp):
-    return [{"name": "replay", "cfg": "base", "exe": c03._exe(ctx, "base"), "lines": ["cfg"] + rp.get("op_lines", [])}]
+    cfg = rp.get("config", "base")
+    if cfg not in ("base", "p255", "p381"):
+        cfg = "base"
+    import props.c11 as c11
+    return [{"name": "replay", "cfg": cfg, "exe": (c03._exe if cfg == "p255" else c11._exe)(ctx, cfg), "lines": ["cfg"] + rp.get("context_lines", []) + rp.get("op_lines", [])}]
 
 
 def nontrivial(r):
